@@ -229,7 +229,8 @@ class Finder(importlib.abc.MetaPathFinder):
             return importlib.machinery.ModuleSpec(name, _Loader(self.targets[name]), origin=self.targets[name])
 
 
-REPO = '/repo'
+import os as _os
+REPO = _os.environ.get('VERIF_REPO', '/repo')
 DEFAULT_MODULES = ['util.core', 'xsd.xsdtree', 'xsd.xsdsimpletype', 'xsd.xsdattribute', 'xsd.xsdindicator', 'xsd.xsdelement',
                    'xsd.xsdcomplextype', 'xmlelement.xmlchildcontainer', 'xmlelement.xmlelement', 'xmlelement.containers',
                    'parser.parser', 'generate_classes.utils']
